@@ -1,12 +1,99 @@
 import Driver.Util
-/-! Driver section for C02 (stub until the model is online). -/
+import RxnModel.Model.Align
+/-!
+Driver section for C02 (barrier alignment). Header: `M C02 <senders> <batchMaxSize>`.
+Ops (one output line each):
+  `send <sr> ev <keyhex> <p> <t>` | `send <sr> wm <ts>` | `send <sr> bar <id>`  → `passed` | `parked` | `busy`
+  `go <sr>`   → `noop` | `ok <observations of the consumer's event function>`
+  `tick` / `stale` → `none` | `H(...)`
+  `state`     → `ck=<id>:<missing>|- slots=<per sender p|k|->`   (mechanism detail)
+The step function is `Rxn.Align.step`, the one the theorems of `Props/C02.lean` are about.
+-/
 namespace Driver.C02
-open Rxn Driver
+open Rxn Driver Rxn.Align
 
-def step (st : Unit) : List String → Unit × String
+structure DSt where
+  s : St
+  keys : List Bytes := []
+
+def insSorted (k : Bytes) : List Bytes → List Bytes
+  | [] => [k]
+  | y :: r => if k = y then y :: r else if Bytes.lt k y then k :: y :: r else y :: insSorted k r
+
+def showEntry : Entry → String
+  | .user _ k p t => s!"u:{toHex k}:{p}:{t}"
+  | .timer _ k ts => s!"t:{toHex k}:{ts}"
+
+def showKV (kv : List (Bytes × Bytes)) : String :=
+  joinWith "," ((kv.filter fun x => !x.2.isEmpty).map fun x => s!"{toHex x.1}={toHex x.2}")
+
+def showObs (keys : List Bytes) : Obs → Option String
+  | .aligned _ p => some (if p then "passed" else "parked")
+  | .busy _ => some "busy"
+  | .proc _ _ => none
+  | .handler es given =>
+    let ks := (given.map (·.1)).foldl (fun acc k => insSorted k acc) []
+    let g := ks.map fun k => (k, ((given.find? (·.1 = k)).map (·.2)).getD [])
+    some s!"H({joinWith "," (es.map showEntry)}|{showKV g})"
+  | .reg _ id => some s!"reg:{id}"
+  | .reject _ got have_ => some s!"reject:{got}:{have_}"
+  | .snap id kv timers =>
+    some s!"S({id}|{showKV (keys.map fun k => (k, kv k))}|{joinWith "," (timers.map fun t => s!"{t.1}:{toHex t.2}")})"
+  | .ack id => some s!"ack:{id}"
+  | .released srs => some s!"rel:{joinWith "." (srs.map toString)}"
+
+def showAll (keys : List Bytes) (obs : List Obs) : List String := obs.filterMap (showObs keys)
+
+def showState (s : St) : String :=
+  let ck := match s.ckpt with
+    | none => "-"
+    | some (id, m) => s!"{id}:{joinWith "." (m.map toString)}"
+  let slots := String.ofList ((List.range s.k).map fun i =>
+    match s.slots i with
+    | none => '-'
+    | some (_, true) => 'p'
+    | some (_, false) => 'k')
+  s!"ck={ck} slots={slots}"
+
+def doAct (st : DSt) (a : Act) : DSt × List String :=
+  let r := step st.s a
+  ({ st with s := r.1 }, showAll st.keys r.2)
+
+def step' (st : DSt) : List String → DSt × String
+  | ["send", sr, "ev", k, p, t] =>
+    let key := hexOr k
+    let st := { st with keys := insSorted key st.keys }
+    if natOr sr < st.s.k then
+      let (st, o) := doAct st (.align (natOr sr) (.ev key (natOr p) (natOr t)))
+      (st, joinWith " " o)
+    else (st, "bad-op")
+  | ["send", sr, "wm", ts] =>
+    if natOr sr < st.s.k then
+      let (st, o) := doAct st (.align (natOr sr) (.wm (natOr ts)))
+      (st, joinWith " " o)
+    else (st, "bad-op")
+  | ["send", sr, "bar", id] =>
+    if natOr sr < st.s.k then
+      let (st, o) := doAct st (.align (natOr sr) (.bar (natOr id)))
+      (st, joinWith " " o)
+    else (st, "bad-op")
+  | ["go", sr] =>
+    let r := step st.s (.go (natOr sr))
+    if r.2.isEmpty then (st, "noop")
+    else ({ st with s := r.1 }, joinWith " " ("ok" :: showAll st.keys r.2))
+  | ["tick"] =>
+    let (st, o) := doAct st .tick
+    (st, if o.isEmpty then "none" else joinWith " " o)
+  | ["stale"] =>
+    let (st, o) := doAct st .stale
+    (st, if o.isEmpty then "none" else joinWith " " o)
+  | ["state"] => (st, showState st.s)
   | _ => (st, "bad-op")
 
 def handle (lines : Array String) (i : Nat) (out : Array String) : Nat × Array String :=
-  runLines step () lines i out
+  let hdr := words (lines.getD (i - 1) "")
+  let k := natOr (hdr.getD 2 "1")
+  let b := natOr (hdr.getD 3 "1")
+  runLines step' { s := init k (max b 1) } lines i out
 
 end Driver.C02
